@@ -315,7 +315,8 @@ func (c *Certificate) Verify(opts VerifyOptions) (chains [][]*Certificate, err e
 	if opts.Roots.contains(c) {
 		candidateChains = append(candidateChains, []*Certificate{c})
 	} else {
-		if candidateChains, err = c.buildChains(make(map[int][][]*Certificate), []*Certificate{c}, &opts); err != nil {
+		steps := 0
+		if candidateChains, err = c.buildChains(&steps, []*Certificate{c}, &opts); err != nil {
 			return nil, err
 		}
 	}
@@ -353,7 +354,17 @@ func appendToFreshChain(chain []*Certificate, cert *Certificate) []*Certificate 
 	return n
 }
 
-func (c *Certificate) buildChains(cache map[int][][]*Certificate, currentChain []*Certificate, opts *VerifyOptions) (chains [][]*Certificate, err error) {
+// maxChainBuildSteps bounds the number of partial chains one Verify call extends. Results for an
+// intermediate are not cached: which chains exist above it depends on the certificates already on
+// the path (loop avoidance) and on the path-length budget left, so a result computed under one
+// prefix is not valid for another.
+const maxChainBuildSteps = 1000
+
+func (c *Certificate) buildChains(steps *int, currentChain []*Certificate, opts *VerifyOptions) (chains [][]*Certificate, err error) {
+	*steps++
+	if *steps > maxChainBuildSteps {
+		return nil, errors.New("x509: too many candidate paths while verifying certificate chain")
+	}
 	possibleRoots, failedRoot, rootErr := opts.Roots.findVerifiedParents(c)
 nextRoot:
 	for _, rootNum := range possibleRoots {
@@ -386,11 +397,7 @@ nextIntermediate:
 			continue
 		}
 		var childChains [][]*Certificate
-		childChains, ok := cache[intermediateNum]
-		if !ok {
-			childChains, err = intermediate.buildChains(cache, appendToFreshChain(currentChain, intermediate), opts)
-			cache[intermediateNum] = childChains
-		}
+		childChains, err = intermediate.buildChains(steps, appendToFreshChain(currentChain, intermediate), opts)
 		chains = append(chains, childChains...)
 	}
 
